@@ -77,6 +77,15 @@ class VM {
         [IN ( false ), OUT] boolean OB, [IN ( false ), OUT] boolean OBT,
         [IN ( false ), OUT] char16 OC, [IN ( false ), OUT] string OS,
         [IN ( false ), OUT] uint16 OA[], [IN ( false ), OUT] boolean OBA[]);
+    uint32 DoAll(
+        [IN] char16 C, [IN] char16 CA[], [IN] datetime D, [IN] datetime DA[],
+        [IN] real32 R4, [IN] real64 R8, [IN] sint64 S8, [IN] uint64 U8A[],
+        [IN] sint8 S1, [IN] uint16 U2A[],
+        [IN] boolean B, [IN] boolean BA[], [IN] string S, [IN] string SA[],
+        [IN] VA REF RF, [IN] VA REF RFA[],
+        [IN, EmbeddedInstance("VA")] string EI,
+        [IN, EmbeddedObject] string EO,
+        [IN ( false ), OUT] string Seen[]);
 };
 class VN0 { [Key] uint32 k; string s; };
 class VN1 { [Key] uint32 k; string s; };
@@ -254,6 +263,15 @@ class VMMethodProvider(pywbem_mock.MethodProvider):
     provider_classnames = "VM"
 
     def InvokeMethod(self, methodname, localobject, params):
+        if methodname.lower() == "doall":
+            # echoes which parameters arrived, with their CIM types
+            import cimcanon
+            seen = sorted("%s:%s:%s:%s" % (n.lower(), p.type, bool(p.is_array),
+                                           cimcanon.digest(p.value))
+                          for n, p in params.items())
+            return (pywbem.Uint32(len(seen)),
+                    [pywbem.CIMParameter("Seen", "string", is_array=True,
+                                         value=seen)])
         if methodname.lower() != "doit":
             raise pywbem.CIMError(pywbem.CIM_ERR_METHOD_NOT_AVAILABLE)
         p2 = params["P2"].value if "P2" in params else None
